@@ -66,8 +66,9 @@ def same_xml(a, b):
     from lxml import etree
     try:
         etree.fromstring(a.encode("utf-8"))
+        etree.fromstring(b.encode("utf-8"))
     except etree.XMLSyntaxError:
-        return False            # the text written to this destination is not even well-formed
+        return False            # the text written to one of the destinations is not even well-formed
     return etree.tostring(etree.fromstring(a.encode("utf-8")), method="c14n") == etree.tostring(etree.fromstring(b.encode("utf-8")), method="c14n")
 
 
@@ -96,7 +97,12 @@ def main():
     try:
         def all_documents():
             for i, d in common.documents(a.seed + 77, count, FEATURES, max_records=3):
-                d.entity(d.valid_qualified_name(list(d.namespaces)[0].prefix + ":nonascii"), {"prov:label": "grüße 中文 \U0001F600"})
+                px = list(d.namespaces)[0].prefix
+                d.entity(d.valid_qualified_name(px + ":nonascii"), {"prov:label": "grüße 中文 \U0001F600"})
+                if i % 2:
+                    # non-ASCII letters in names too (XML element names, JSON keys, IRIs): a text destination must
+                    # not spell them differently from a binary one
+                    d.entity(d.valid_qualified_name(px + ":entit\u00e9"), {px + ":caf\u00e9\u4e2d": "v"})
                 yield i, d
             # large texts (several hundred KiB) of multi-byte characters at every byte alignment: anything that
             # handles the text piecewise (buffers, blocks) meets character boundaries inside a piece
@@ -165,7 +171,7 @@ def main():
             print("still failing:", f["what"])
         return 1 if bad else 0
     res = {"evaluations": n, "distinct": n, "samples": ["doc#0/json", "doc#0/rdf"],
-           "rule": "%d generated documents (C07-expressible features, plus a non-ASCII label) x 4 formats; per case 4 destination kinds + text files in utf-16 / latin-1, 5 source kinds + a utf-16 text file, with/without explicit format" % count,
+           "rule": "%d generated documents (C07-expressible features, plus a non-ASCII label and, in every second one, non-ASCII letters in an identifier and an attribute name) x 4 formats; per case 4 destination kinds + text files in utf-16 / latin-1, 5 source kinds + a utf-16 text file, with/without explicit format" % count,
            "failures_found": len(failures), "failures": list(failures.values())}
     if a.out:
         json.dump(res, open(a.out, "w"), indent=1)
